@@ -1,7 +1,7 @@
 ------------------------------- MODULE Trace_Ext -------------------------------
 (* Extended conformance (not one of the twenty properties): recorded results of  *)
 (* the extractors of the real library against spec/Extract.tla.                  *)
-EXTENDS Extract, Json, IOUtils, TLC
+EXTENDS Ztp, Json, IOUtils, TLC
 Trace == ndJsonDeserialize(IOEnv.VH_TRACE)
 NShards == atoi(IOEnv.VH_SHARDS)
 N == Len(Trace)
@@ -22,6 +22,9 @@ Agree(e) ==
               ELSE e.ok = x.ok /\ (x.ok => e.ip = x.ip /\ e.mask = x.mask /\ e.lease = x.lease /\ e.dns = x.dns
                                           /\ e.routers = x.routers /\ e.ntp = x.ntp /\ e.search = x.search)
          [] e.op = "Req4" -> e.res = IsRequested4(e.pkt, e.code)
+         [] e.op \in {"Ztp4", "Ztp6"} ->
+              LET x == IF e.op = "Ztp4" THEN Ztp4(e.pkt) ELSE Ztp6(e.msg) IN
+              e.st = x.st /\ (x.st = "ok" => e.vendor = x.vendor /\ e.model = x.model /\ e.serial = x.serial)
          [] OTHER -> FALSE
 
 ShardLo(k) == ((k - 1) * N) \div NShards + 1
